@@ -152,6 +152,52 @@ def h_rel(params, h0: str, h1: str, op: int):
     require(s2 == s, "str(parse(str(rels))) differs", s=s, s2=s2)
 
 
+ARCH_NAMES = ["amd64", "i386", "any-arm", "linux-any", "hurd-i386", "s390x", "riscv64"]
+PROF_NAMES = ["stage1", "nocheck", "cross", "pkg.foo.bar", "nodoc", "noudeb", "stage2"]
+VERSIONS = ["1", "10:1.0-1", "2147483648:1~rc1+b2", "0.0~git20240101120000.1-1.1", "1:2:3", "9:9"]
+
+
+def h_counts(params, ng: int, nt: int, na: int, nalt: int, nconj: int, vi: int, op: int):
+    """List lengths as symbolic variables: ng restriction groups of nt terms, na architectures, nalt alternatives,
+    nconj conjuncts (0 = the optional part is absent); names from catalogues (paths run concretely)."""
+    assume(0 <= ng <= params["max"] and 1 <= nt <= 3 and 0 <= na <= params["max"])
+    assume(1 <= nalt <= params["maxalt"] and 1 <= nconj <= params["maxalt"])
+    assume(0 <= vi <= len(VERSIONS) and 0 <= op < len(OPS))
+    if vi == 0:
+        assume(op == 0)
+    if params.get("thin"):
+        assume(nt == 1 + ng % 3)
+        assume(vi == (ng + na) % (len(VERSIONS) + 1))
+        assume((vi == 0) | (op == (vi + ng) % len(OPS)))
+    restr = None
+    if ng > 0:
+        restr = []
+        for g in range(ng):
+            restr.append([BR((g + t) % 2 == 0, PROF_NAMES[(g + 2 * t) % len(PROF_NAMES)]) for t in range(nt)])
+    archs = None if na == 0 else [AR(na % 2 == 0, ARCH_NAMES[i % len(ARCH_NAMES)]) for i in range(na)]
+    ver = None if vi == 0 else (OPS[op], VERSIONS[vi - 1])
+    rels = []
+    for c in range(nconj):
+        alts = []
+        for a in range(nalt):
+            if c == 0 and a == 0:
+                alts.append(atom("pkg-a", None, ver, archs, restr))
+            elif (c + a) % 2:
+                alts.append(atom("lib%d%d" % (c, a), "any" if a else None, (OPS[(op + a) % len(OPS)], VERSIONS[(c + a) % len(VERSIONS)])))
+            else:
+                alts.append(atom("x%d-%d" % (c, a), None, None, [AR(True, ARCH_NAMES[c])], [[BR(False, PROF_NAMES[a])]]))
+        rels.append(alts)
+    with warnings.catch_warnings(record=True) as log:
+        warnings.simplefilter("always")
+        s = PkgRelation.str(rels)
+        back = PkgRelation.parse_relations(s)
+        require(len(log) == 0, "warning emitted while parsing formatted relations", s=s, warning=str(log[0].message) if log else None)
+    require(back == rels, "parse(str(rels)) differs", s=s, back=back, rels=rels)
+    require(PkgRelation.str(back) == s, "str(parse(str(rels))) differs", s=s)
+    if ng >= 4:
+        reach(params, "four-groups")
+
+
 def lemma_atoms(params):
     from .. import re2smt as R
     S = R.Session(timeout_ms=60000)
@@ -216,4 +262,8 @@ def partitions(tier, seed):
                 P.append(dict(name="rel/%s/%s/len%d" % (shape, "+".join(h), ln), harness="h_rel",
                               params=dict(shape=shape, hole=list(h), lens=[ln] * len(h)), budget=60 if q else 450, reach=[],
                               bounds="shape %s; symbolic %s of %d chars; operator index symbolic where a version is present" % (shape, "+".join(h), ln)))
+    for mx, ma in (((6, 2),) if q else ((6, 2), (8, 4))):
+        P.append(dict(name="counts/max%d-alt%d" % (mx, ma), harness="h_counts", params=dict(max=mx, maxalt=ma, **({"thin": True} if (q or mx > 6) else {})), budget=100 if q else 1800,
+                      reach=["four-groups"],
+                      bounds="0..%d restriction groups of 1..3 terms, 0..%d architectures, 1..%d alternatives and conjuncts (all counts symbolic), version from a catalogue of %d (incl. epochs of 2 and 10 digits)%s" % (mx, mx, ma, len(VERSIONS), "; thinned: term count, version and operator are functions of the other counts" if (q or mx > 6) else "")))
     return P
